@@ -50,7 +50,8 @@ func (r RawTime) Value() (t time.Time, valid bool) {
 type RawDeltaSeconds string
 
 func (r RawDeltaSeconds) Value() (dur time.Duration, valid bool) {
-	if len(r) == 0 || r[0] == '-' {
+	// delta-seconds = 1*DIGIT: no sign of either kind.
+	if len(r) == 0 || r[0] == '-' || r[0] == '+' {
 		return
 	}
 	seconds, err := strconv.ParseInt(string(r), 10, 64)
